@@ -165,12 +165,15 @@ Section Json.
     end.
 
   Definition json_finish (fin : sfinish) (s : jsink) : jsink :=
-    if negb (js_begin_printed s) then s else
     let st := add_searches 1 (js_stats s) in
     let st := if Nat.ltb 0 (js_match_count s) then add_searches_with_match 1 st else st in
     let st := add_bytes_searched (f_bytes fin) st in
-    mkJS (js_path s) (js_match_count s) (js_after_rem s) (f_bin fin) (js_begin_printed s) st (js_matches s)
-         (js_out s ++ [JEnd (jpath s) (f_bin fin) st]).
+    (* a search that printed nothing gets no end message, but its statistics count *)
+    if negb (js_begin_printed s) then
+      mkJS (js_path s) (js_match_count s) (js_after_rem s) (f_bin fin) (js_begin_printed s) st (js_matches s) (js_out s)
+    else
+      mkJS (js_path s) (js_match_count s) (js_after_rem s) (f_bin fin) (js_begin_printed s) st (js_matches s)
+           (js_out s ++ [JEnd (jpath s) (f_bin fin) st]).
 
   Definition json_run (path : option bytes) (evs : list sevent) (fins : nat -> sfinish) : option (jsink * bool) :=
     run_sink json_begin json_step json_finish evs fins (json_sink path []).
